@@ -1,8 +1,9 @@
 #!/bin/sh
-# ingest_all.sh <Cnn> [checks]  -- ingest every deliverable of /tmp/seed-Cnn/seed; default: run only the property's own check
+# ingest_all.sh <Cnn> [checks]  -- ingest every deliverable of ${SEED_SRC:-/tmp/seed-Cnn/seed}; default: run only the property's own check
+# round 2: SEED_SRC=/tmp/seed2-Cnn/seed SEED_LETTER_OFFSET=<number of round-1 seeds of Cnn> ingest_all.sh Cnn
 id=$1; checks=${2:-$1}
 cd /verif
-for p in /tmp/seed-$id/seed/patch*.diff; do
+for p in ${SEED_SRC:-/tmp/seed-$id/seed}/patch*.diff; do
   [ -f "$p" ] || continue
   s=$(basename "$p" .diff | sed 's/^patch//')
   python3 engine/ingest_seed.py "$id" "$s" "$checks" 2>&1 | tail -1
